@@ -2494,6 +2494,12 @@ func (s *swamp) GetTreasuresByBeacon(beaconType BeaconType, beaconOrderType Beac
 	// set the last interaction time to the current time
 	atomic.StoreInt64(&s.lastInteractionTime, time.Now().UnixNano())
 
+	// a negative offset means "from the beginning" (the bucket route of the gateway clamps it the same
+	// way); passing it on would index the ordered slice of the beacon with a negative position
+	if from < 0 {
+		from = 0
+	}
+
 	// if the limit 0 its means that we need to get all treasures from the beacon from, the "from" parameter
 	if limit == 0 {
 		// get the element count of the beacon
